@@ -160,6 +160,21 @@ def streams(rnd, tier):
         rnd.shuffle(items)
         out.append(("bulk %d records of each kind in one response" % nk,
                     [("data", R.cache_response(1, SESS) + b"".join(items) + R.eod(1, SESS, SERIAL))]))
+    # the deepest tries a cache can build with clean prefixes: a nested chain of every length 0..W along one address,
+    # then more announcements / withdrawals of the longest ones (operations on nodes at the maximum depth)
+    for fam, w in (("4", 32), ("6", 128)):
+        addr = "".join(rnd.choice("01") for _ in range(w))
+        chain = [R.prefix_pdu(1, (fam, addr[:ln] + "0" * (w - ln), ln, w, 65000), 1) for ln in range(w + 1)]
+        rnd.shuffle(chain)
+        deep = []
+        for ln in (w, w - 1):
+            rec = (fam, addr[:ln] + "0" * (w - ln), ln, w, 65001)
+            deep += [R.prefix_pdu(1, rec, 1)]
+        first = R.cache_response(1, SESS) + b"".join(chain) + b"".join(deep) + R.eod(1, SESS, SERIAL)
+        second = R.cache_response(1, SESS) + R.prefix_pdu(1, (fam, addr, w, w, 65001), 0) + \
+            R.prefix_pdu(1, (fam, addr, w, w, 65002), 1) + R.prefix_pdu(1, (fam, addr, w, w, 65000), 1) + R.eod(1, SESS, SERIAL + 1)
+        out.append(("bulk nested chain /0../%d of IPv%s, then operations on the longest" % (w, fam),
+                    [("data", first), ("data", R.serial_notify(1, SESS, SERIAL + 1)), ("data", second)]))
     k = used = 0
     for ver in (1, 0):
         for desc, p in hostile_pdus(rnd, ver):
